@@ -282,6 +282,29 @@ def _run_check(prop, tier, seed, t0, harness, cfg, budget, level, targets, scrat
         p = subprocess.Popen([targets["rc"].out], env=env, stdout=logf, stderr=subprocess.STDOUT, cwd=out, preexec_fn=_die_with_parent)
         workers.append((i, out, p, logf))
     stats_all = []
+    # Watchdog: a case is a deterministic, single-threaded program (threads are fibers, time is virtual),
+    # so a worker whose current case does not change for STUCK_S seconds -- thousands of times the cost
+    # of a case -- sits in a loop without any platform call inside the code under test.  It is killed and
+    # its case goes through triage (three fresh replays must also fail to terminate).
+    stuck_s = float(os.environ.get("VERIF_STUCK_S", cfg.get("stuck_s", 90)))
+    last = {}
+    stuck = set()
+    while True:
+        alive = [(i, out, p) for i, out, p, _ in workers if p.poll() is None]
+        if not alive:
+            break
+        now = time.time()
+        for i, out, p in alive:
+            try:
+                cur = open(os.path.join(out, "cur.tape"), "rb").read(8 + 8 * 64)
+            except OSError:
+                cur = b""
+            if i not in last or last[i][0] != cur:
+                last[i] = (cur, now)
+            elif now - last[i][1] > stuck_s:
+                stuck.add(i)
+                p.kill()
+        time.sleep(1.0)
     for i, out, p, logf in workers:
         rc = p.wait()
         logf.close()
@@ -302,6 +325,9 @@ def _run_check(prop, tier, seed, t0, harness, cfg, budget, level, targets, scrat
         log = open(os.path.join(out, "log"), "rb").read().decode("utf-8", "replace")
         cur = os.path.join(out, "cur.tape")
         data = read_cur_tape(cur)
+        if i in stuck:
+            candidates.append(("rapidcheck-stuck:w%d" % i, data, "hang:no-progress", {"log": log[-3000:], "rc": rc}))
+            continue
         candidates.append(("rapidcheck-crash:w%d" % i, data, "crash:" + crash_summary(log), {"log": log[-3000:], "rc": rc}))
 
     # ---- 3. thorough extras ------------------------------------------------------------------
@@ -328,14 +354,25 @@ def _run_check(prop, tier, seed, t0, harness, cfg, budget, level, targets, scrat
             continue
         seen_cls.add(key)
         # confirm: 3 replays in fresh processes must all fail in the same way
-        results = [rp.run_bytes(data) for _ in range(3)]
+        rto = stuck_s if cls.startswith("hang:") else 120
+        with ThreadPoolExecutor(max_workers=3) as ex3:
+            results = list(ex3.map(lambda _: rp.run_bytes(data, timeout=rto), range(3)))
         kinds = set(r["cls"].split(":")[0] for r in results)
         if any(r["cls"] == "ok" for r in results) or len(kinds) != 1:
             notes.append("non-reproducible failure from %s (%s): replays gave %s" % (origin, cls, [r["cls"] for r in results]))
             continue
         kind = results[0]["cls"].split(":")[0]
         if kind == "timeout":
-            notes.append("case from %s did not finish within the replay time limit (inconclusive, not a verdict)" % origin)
+            # three fresh runs of one deterministic case, each given thousands of times the cost of a case:
+            # the code under test loops without reaching any platform call (the scheduler would see those)
+            h = hashlib.sha1(data).hexdigest()[:12]
+            fdir = os.path.join(VERIF, "findings", prop)
+            os.makedirs(fdir, exist_ok=True)
+            tp = os.path.join(fdir, h + ".tape")
+            open(tp, "wb").write(data)
+            msg = "the case does not terminate: three fresh replays ran %.0f s each (a case normally takes milliseconds) without the code under test reaching a platform call" % rto
+            open(os.path.join(fdir, h + ".txt"), "w").write("origin: %s\nclass: hang:no-progress\n\n%s\n" % (origin, msg))
+            violations.append({"replay": tp, "class": "hang:no-progress", "origin": origin, "msg": msg, "trace": ""})
             continue
         final_cls = results[0]["cls"]
         if kind == "crash":
